@@ -1,5 +1,5 @@
 #!/usr/bin/env python3
-"""usage: collect_matrix.py <dir with seeded/<id>/eval_quick_seed1.json> [more dirs]
+"""usage: collect_matrix.py <dir with seeded/<id>/eval_quick_seed1.json>[:<regex on seed ids>] [more dirs]
 Merges the per-seed evaluation files into /verif/seeded/<id>/meta.json ("checks") and writes
 /verif/seeded/MATRIX.md."""
 import json, os, sys, glob
@@ -10,9 +10,14 @@ for mp in glob.glob("/verif/seeded/*/meta.json"):
     for p, v in (json.load(open(mp)).get("checks") or {}).items():
         rc = {"VIOLATION": 1, "inconclusive": 2}.get(v.get("verdict"), 0)
         rows.setdefault(sid, {})[p] = {"rc": rc, "kinds": v.get("kinds", []), "wall_s": v.get("wall_s")}
-for base in sys.argv[1:]:
+import re
+for arg in sys.argv[1:]:
+    # "<dir>" or "<dir>:<regex on the seed id>" (a copy holds stale files of the seeds it did not run)
+    base, _, pat = arg.partition(":")
     for f in glob.glob(os.path.join(base, "*", "eval_quick_seed1.json")):
         sid = os.path.basename(os.path.dirname(f))
+        if pat and not re.search(pat, sid):
+            continue
         r = json.load(open(f))
         # later directories override earlier ones cell by cell (a target-only re-run refreshes one cell)
         rows.setdefault(sid, {}).update(r)
